@@ -660,4 +660,71 @@ theorem case_normal_more_shape {fuel use key c as atoms results clauses}
   rw [specTransform_cons_none h1, specTransform_cons_none h2, specTransform_cons_none h3, specTransform_cons_none h4, specTransform_cons_none h5, specTransform_cons_none h6, specTransform_cons_some hm]
   spec_inst
 
+/-! ## Non-vacuity: the hypotheses of the shape theorems are satisfiable
+
+One closed instance per form (the expansions are those the real expander produces on the same
+input, see the `expand` correspondence check). -/
+
+section Examples
+open Ruschm.Macro.Ex
+
+example : expand1 300 "when" (lst [sy "t", num 1, num 2]) =
+    .ok (lst [sy "if", sy "t", lst [sy "begin", num 1, num 2]]) :=
+  when_shape (test := sy "t") (results := [num 1, num 2]) rfl (by simp) (by decide)
+
+example : expand1 300 "unless" (lst [sy "t", num 1]) =
+    .ok (lst [sy "if", lst [sy "not", sy "t"], lst [sy "begin", num 1]]) :=
+  unless_shape (test := sy "t") (results := [num 1]) rfl (by simp) (by decide)
+
+example : expand1 300 "begin" (lst [num 1, num 2]) = .ok (lst [lst [sy "lambda", lst [], num 1, num 2]]) :=
+  begin_shape (es := [num 1, num 2]) rfl (by simp) (by decide)
+
+example : expand1 300 "and" (lst [num 1, num 2, num 3]) =
+    .ok (lst [sy "if", num 1, lst [sy "and", num 2, num 3], .prim (.bool false) none]) :=
+  and_more_shape (test := num 1) (tests := [num 2, num 3]) rfl (by simp) (by decide)
+
+example : expand1 300 "or" (lst [num 1, num 2]) =
+    .ok (lst [sy "let", lst [lst [sy "x", num 1]], lst [sy "if", sy "x", sy "x", lst [sy "or", num 2]]]) :=
+  or_more_shape (test := num 1) (tests := [num 2]) rfl (by simp) (by decide)
+
+example : expand1 300 "let" (lst [lst [lst [sy "a", num 1], lst [sy "b", num 2]], sy "a"]) =
+    .ok (lst [lst [sy "lambda", lst [sy "a", sy "b"], sy "a"], num 1, num 2]) :=
+  let_shape (bds := [lst [sy "a", num 1], lst [sy "b", num 2]])
+    (nvs := [(sy "a", num 1), (sy "b", num 2)]) (bodies := [sy "a"]) rfl rfl
+    (.cons rfl (.cons rfl .nil)) (by simp) (by simp) (by decide)
+
+example : expand1 300 "let*" (lst [lst [lst [sy "a", num 1], lst [sy "b", num 2]], sy "a"]) =
+    .ok (lst [sy "let", lst [lst [sy "a", num 1]],
+      lst [sy "let*", lst [lst [sy "b", num 2]], sy "a"]]) :=
+  letstar_more_shape (b := lst [sy "a", num 1]) (bds := [lst [sy "b", num 2]])
+    (nvs := [(sy "b", num 2)]) (bodies := [sy "a"]) rfl rfl rfl (.cons rfl .nil) (by simp)
+    (by simp) (by decide)
+
+example : expand1 300 "cond" (lst [lst [sy "t", sy "=>", sy "f"], lst [sy "else", num 1]]) =
+    .ok (lst [sy "let", lst [lst [sy "temp", sy "t"]],
+      lst [sy "if", sy "temp", lst [sy "f", sy "temp"], lst [sy "cond", lst [sy "else", num 1]]]]) :=
+  cond_arrow_more_shape (c := lst [sy "t", sy "=>", sy "f"]) (clauses := [lst [sy "else", num 1]])
+    rfl rfl rfl (by simp) (by decide)
+
+example : expand1 300 "cond" (lst [lst [sy "t", num 1, num 2]]) =
+    .ok (lst [sy "if", sy "t", lst [sy "begin", num 1, num 2]]) :=
+  cond_normal_shape (c := lst [sy "t", num 1, num 2]) (test := sy "t") (results := [num 1, num 2])
+    rfl rfl (by simp) rfl (by intro a r h; cases h; rfl) (by decide)
+
+example : expand1 300 "case" (lst [lst [sy "f", sy "x"], lst [lst [num 1], num 2]]) =
+    .ok (lst [sy "let", lst [lst [sy "atom-key", lst [sy "f", sy "x"]]],
+      lst [sy "case", sy "atom-key", lst [lst [num 1], num 2]]]) :=
+  case_list_key_shape (k := lst [sy "f", sy "x"]) (keys := [sy "f", sy "x"])
+    (clauses := [lst [lst [num 1], num 2]]) rfl rfl (by simp) (by simp) (by decide)
+
+example : expand1 300 "case" (lst [sy "k", lst [lst [num 1, num 2], sy "a"], lst [sy "else", sy "b"]]) =
+    .ok (lst [sy "if", lst [sy "memv", sy "k", lst [sy "quote", lst [num 1, num 2]]],
+      lst [sy "begin", sy "a"], lst [sy "case", sy "k", lst [sy "else", sy "b"]]]) :=
+  case_normal_more_shape (key := sy "k") (c := lst [lst [num 1, num 2], sy "a"])
+    (as := lst [num 1, num 2]) (atoms := [num 1, num 2]) (results := [sy "a"])
+    (clauses := [lst [sy "else", sy "b"]]) rfl rfl rfl (by simp) (by simp) (by simp)
+    (by intro a r h; cases h) (by intro ks h; cases h) (by decide)
+
+end Examples
+
 end Ruschm.C05
